@@ -542,6 +542,52 @@ func (r *runner) ecRangeClasses() {
 			}
 		}
 	}
+	// RSA: the RECOVERED message representative in every structural class. Whoever holds the private key of the
+	// DG15 (a cloned chip, a forged evidence file) or of an embedded certificate decides what the signature recovers
+	// to: signature = F^d mod n. ISO 9796-2 (AA): F = head | filler(L) | trailer for every head {6A, 4A, 00, BC},
+	// every filler length 0..70 (all digest sizes 20/28/32/48/64 -1, +0, +1 included) and every trailer
+	// {BC, 38CC, 34CC, 36CC, 35CC, 33CC (unknown id), CC, none}; PKCS#1 v1.5 / PSS: EM = 00 01 FF.. 00 | T for every
+	// padding length class and DigestInfo length 0..70.
+	{
+		key := refpki.LoadKey(refpki.RSA(1024, false, 0))
+		spki := key.SPKI()
+		dg15 := append(append([]byte{0x6F}, berLen(len(spki))...), spki...)
+		N, D := key.RSA.N, key.RSA.D
+		l := (N.BitLen() + 7) / 8
+		sign := func(f []byte) []byte {
+			return new(big.Int).Exp(new(big.Int).SetBytes(f), D, N).FillBytes(make([]byte, l))
+		}
+		trailers := [][]byte{{0xBC}, {0x38, 0xCC}, {0x34, 0xCC}, {0x36, 0xCC}, {0x35, 0xCC}, {0x33, 0xCC}, {0xCC}, nil}
+		for L := 0; L <= 70; L++ {
+			if !c.Mine() {
+				continue
+			}
+			for _, head := range []byte{0x6A, 0x4A, 0x00, 0xBC} {
+				for _, tr := range trailers {
+					f := append(append([]byte{head}, bytesOf(0x5D, L)...), tr...)
+					r.doClass(sec, epA, joinPair(dg15, sign(f)), "rsa-recovered-block:iso9796-2")
+					// the same block at full width (filler extended on the left, as a genuine chip would)
+					if len(f) < l {
+						full := append([]byte{head}, bytesOf(0xBB, l-1-L-len(tr))...)
+						full = append(append(full, bytesOf(0x5D, L)...), tr...)
+						if new(big.Int).SetBytes(full).Cmp(N) < 0 {
+							r.doClass(sec, epA, joinPair(dg15, sign(full)), "rsa-recovered-block:iso9796-2/full-width")
+						}
+					}
+				}
+			}
+			for _, ps := range []int{0, 1, 7, 8, l - 3 - L} {
+				if ps < 0 || 3+ps+L > l {
+					continue
+				}
+				em := append(append([]byte{0x00, 0x01}, bytesOf(0xFF, ps)...), 0x00)
+				em = append(em, bytesOf(0x30, L)...)
+				sg := sign(em)
+				r.doClass(sec, mustEP("cms.VerifySignature/sha256WithRSA"), joinPair(spki, sg), "rsa-recovered-block:pkcs1")
+				r.doClass(sec, mustEP("cms.VerifySignature/rsassa-pss"), joinPair(spki, sg), "rsa-recovered-block:pkcs1")
+			}
+		}
+	}
 	// RSA keys of adversarial shape: modulus of every size class (also even), exponent up to the largest the key type can hold
 	// (larger moduli only make the cubic cost of modular exponentiation visible - 0.6 s at 16 KiB - which the 20 s
 	// horizon is not meant to judge)
